@@ -16,8 +16,8 @@ from ..observe import arun as _arun
 
 ID = "C11"
 LEVEL = "fault_enumeration"
-BUDGET = {"quick": 320, "thorough": 8000}
-SHARDS = {"quick": 8, "thorough": 16}
+BUDGET = {"quick": 480, "thorough": 8000}
+SHARDS = {"quick": 16, "thorough": 16}
 RULE = (
     "Hypothesis-generated acyclic programs (3-7 nodes), optionally with an interval nested to depth 1-3 and optionally wrapped "
     "in a mapping graph node / run through runner.map; fault enumeration: EVERY node in turn is made to raise its pre-allocated "
